@@ -417,10 +417,6 @@ Proof.
       intros o. exact I. }
   pose proof (finite_min_perm _ _ _ _ Hv Hmin) as Hlo.
   pose proof (finite_max_perm _ _ _ _ Hv Hmax) as Hhi.
-  destruct (finite_min vals fmin) as [lo|], (finite_min vals' fmin') as [lo'|]; simpl in Hlo;
-    try contradiction; [|reflexivity].
-  destruct (finite_max vals fmax) as [hi|], (finite_max vals' fmax') as [hi'|]; simpl in Hhi;
-    try contradiction; [|reflexivity].
   destruct m.
   - (* quantile *)
     assert (Q : nres_eq l l'
@@ -430,29 +426,39 @@ Proof.
            (digitize_rows kind fmin' fmax' (quantile_edges vals' mef) l')))
       by (apply finish_rel; auto; apply quantile_edges_perm; exact Hv).
     destruct kind; [exact Q|]. destruct hn; [reflexivity| exact Q].
-  - (* uniform *)
+  - (* uniform (model as of /repo commit b2b5cba: a single bin when there is no finite value) *)
+    set (F := fun es => NOk (mef + b2n hn) es (edge_table fmin fmax es) (digitize_rows kind fmin fmax es l)).
+    set (F' := fun es => NOk (mef + b2n hn) es (edge_table fmin' fmax' es) (digitize_rows kind fmin' fmax' es l')).
+    assert (Hnil : nres_eq l l' (F []) (F' [])) by (apply finish_rel; auto; constructor).
     assert (U : nres_eq l l'
-      match lo, hi with
-      | Fin a, Fin b => NOk (mef + b2n hn) (uniform_edges a (b - a) mef)
-                          (edge_table fmin fmax (uniform_edges a (b - a) mef))
-                          (digitize_rows kind fmin fmax (uniform_edges a (b - a) mef) l)
-      | _, _ => if (mef <=? 1)%nat
-                then NOk (mef + b2n hn) [] (edge_table fmin fmax []) (digitize_rows kind fmin fmax [] l)
-                else NNanEdges
+      match finite_min vals fmin, finite_max vals fmax with
+      | Some l0, Some h =>
+          if xltb h l0 then F []
+          else match l0, h with
+               | Fin a, Fin b => F (uniform_edges a (b - a) mef)
+               | _, _ => NNanEdges
+               end
+      | _, _ => F []
       end
-      match lo', hi' with
-      | Fin a, Fin b => NOk (mef + b2n hn) (uniform_edges a (b - a) mef)
-                          (edge_table fmin' fmax' (uniform_edges a (b - a) mef))
-                          (digitize_rows kind fmin' fmax' (uniform_edges a (b - a) mef) l')
-      | _, _ => if (mef <=? 1)%nat
-                then NOk (mef + b2n hn) [] (edge_table fmin' fmax' []) (digitize_rows kind fmin' fmax' [] l')
-                else NNanEdges
+      match finite_min vals' fmin', finite_max vals' fmax' with
+      | Some l0, Some h =>
+          if xltb h l0 then F' []
+          else match l0, h with
+               | Fin a, Fin b => F' (uniform_edges a (b - a) mef)
+               | _, _ => NNanEdges
+               end
+      | _, _ => F' []
       end).
-    { apply xeq_iff in Hlo. apply xeq_iff in Hhi.
+    { destruct (finite_min vals fmin) as [lo|], (finite_min vals' fmin') as [lo'|]; simpl in Hlo;
+        try contradiction; [|exact Hnil].
+      destruct (finite_max vals fmax) as [hi|], (finite_max vals' fmax') as [hi'|]; simpl in Hhi;
+        try contradiction; [|exact Hnil].
+      rewrite <- (xltb_compat hi hi' lo lo' Hhi Hlo).
+      destruct (xltb hi lo); [exact Hnil|].
+      apply xeq_iff in Hlo. apply xeq_iff in Hhi.
       destruct lo as [|a|], lo' as [|a'|]; try contradiction;
-      destruct hi as [|b|], hi' as [|b'|]; try contradiction;
-      try (destruct (mef <=? 1)%nat; [apply finish_rel; auto; constructor| exact I]).
-      rewrite (uniform_edges_compat a a' b b' mef Hlo Hhi).
+      destruct hi as [|b|], hi' as [|b'|]; try contradiction; try exact I.
+      unfold F, F'. rewrite (uniform_edges_compat a a' b b' mef Hlo Hhi).
       apply finish_rel; auto. apply Forall2_xeq_refl. }
     destruct kind; [exact U|]. destruct hn; [reflexivity| exact U].
   - (* numpy rule: the same interior edges are supplied *)
@@ -549,28 +555,27 @@ Proof.
   unfold bin_numeric in Hrun. destruct (n_bins <? 2)%nat; [discriminate|].
   destruct (xmin_opt (nonnull l)) as [fmin|]; [|inversion Hrun; constructor].
   destruct (xmax_opt (nonnull l)) as [fmax|]; [|inversion Hrun; constructor].
-  destruct (finite_min (nonnull l) fmin) as [lo|]; [|discriminate].
-  destruct (finite_max (nonnull l) fmax) as [hi|]; [|discriminate].
   destruct m; [| |congruence].
   - assert (E : e = quantile_edges (nonnull l) (n_bins_ef0 n_bins l)).
     { destruct kind; [|destruct (has_nulls l); [discriminate|]]; inversion Hrun; reflexivity. }
     rewrite E. apply quantile_edges_canon. exact Cv.
   - assert (E : (exists a r, e = uniform_edges a r (n_bins_ef0 n_bins l)) \/ e = []).
-    { assert (Hu : match lo, hi with
-               | Fin a, Fin b =>
-                   NOk (n_bins_ef0 n_bins l + b2n (has_nulls l))
-                     (uniform_edges a (b - a) (n_bins_ef0 n_bins l))
-                     (edge_table fmin fmax (uniform_edges a (b - a) (n_bins_ef0 n_bins l)))
-                     (digitize_rows kind fmin fmax (uniform_edges a (b - a) (n_bins_ef0 n_bins l)) l)
-               | _, _ =>
-                   if (n_bins_ef0 n_bins l <=? 1)%nat
-                   then NOk (n_bins_ef0 n_bins l + b2n (has_nulls l)) []
-                          (edge_table fmin fmax []) (digitize_rows kind fmin fmax [] l)
-                   else NNanEdges
+    { set (F := fun es => NOk (n_bins_ef0 n_bins l + b2n (has_nulls l)) es
+                            (edge_table fmin fmax es) (digitize_rows kind fmin fmax es l)) in *.
+      assert (Hu : match finite_min (nonnull l) fmin, finite_max (nonnull l) fmax with
+               | Some l0, Some h =>
+                   if xltb h l0 then F []
+                   else match l0, h with
+                        | Fin a, Fin b => F (uniform_edges a (b - a) (n_bins_ef0 n_bins l))
+                        | _, _ => NNanEdges
+                        end
+               | _, _ => F []
                end = NOk n e t rows).
       { destruct kind; [exact Hrun|]. destruct (has_nulls l); [discriminate| exact Hrun]. }
-      destruct lo as [|a|]; destruct hi as [|b|];
-        try (destruct (n_bins_ef0 n_bins l <=? 1)%nat; [|discriminate]; right; inversion Hu; reflexivity).
+      destruct (finite_min (nonnull l) fmin) as [lo|]; [|right; inversion Hu; reflexivity].
+      destruct (finite_max (nonnull l) fmax) as [hi|]; [|right; inversion Hu; reflexivity].
+      destruct (xltb hi lo); [right; inversion Hu; reflexivity|].
+      destruct lo as [|a|]; try discriminate; destruct hi as [|b|]; try discriminate.
       left. exists a, (b - a). inversion Hu. reflexivity. }
     destruct E as [[a [r ->]]| ->]; [apply uniform_edges_canon| constructor].
 Qed.
